@@ -36,6 +36,9 @@ func (p *Prog) verifyFunc(fn *ssa.Function, ct *Contract) (res *FuncResult) {
 		}
 	}()
 	vc.labels = historyLabels(ct)
+	if ct != nil {
+		vc.guarded = ct.Guarded
+	}
 	fr := vc.newFrame(fn, 0)
 	fr.top = true
 	fr.contract = ct
@@ -151,6 +154,16 @@ func (p *Prog) verifyFunc(fn *ssa.Function, ct *Contract) (res *FuncResult) {
 		fenv := fr.specEnv(fr.entry, fr.entry)
 		frameTs = fenv.modTargets(ct.Modifies)
 	}
+	lemmaSites := map[*Clause]int{}
+	defer func() {
+		if res.Err == "" && len(exits) > 0 {
+			for en := range ct.Lemmas {
+				if lemmaSites[en] == 0 {
+					res.Err = "lemma [" + en.Label + "] mentions identifiers that are in scope at no return site"
+				}
+			}
+		}
+	}()
 	for i, ex := range exits {
 		site := fmt.Sprintf("@return[%d]", i+1)
 		if len(exits) == 1 {
@@ -162,6 +175,28 @@ func (p *Prog) verifyFunc(fn *ssa.Function, ct *Contract) (res *FuncResult) {
 		post.results = ex.results
 		for _, en := range ct.Ensures {
 			name := fmt.Sprintf("%s/ensures[%s]%s", key, en.Label, site)
+			if ct.Lemmas[en] {
+				// a lemma may mention locals: it is stated at the return sites where
+				// they are in scope (at least one)
+				goal, ok := func() (g Term, ok bool) {
+					defer func() {
+						if r := recover(); r != nil {
+							if u, isU := r.(unsupported); isU && strings.Contains(u.msg, "unknown identifier") {
+								ok = false
+								return
+							}
+							panic(r)
+						}
+					}()
+					return post.evalBool(en.Expr), true
+				}()
+				if !ok {
+					continue
+				}
+				lemmaSites[en]++
+				vc.oblige(ex.st, name, "ensures", goal, en.Text)
+				continue
+			}
 			vc.oblige(ex.st, name, "ensures", post.evalBool(en.Expr), en.Text)
 		}
 		if isInit {
